@@ -234,6 +234,8 @@ func absSchemaToOpenAPI(a any) map[string]any {
 		switch f {
 		case "type", "pattern", "format":
 			out[f] = x
+		case "types":
+			out["type"] = asSlice(x)
 		case "nullable", "uniqueItems", "exclusiveMinimum", "exclusiveMaximum", "readOnly", "writeOnly":
 			out[f] = x
 		case "disc":
